@@ -48,7 +48,7 @@ fn digest(variant: u32, msg: &[u8]) -> Vec<u8> {
             match msg.len() % 4 {
                 2 => {
                     let mut h = $t::default();
-                    digest::Update::update(&mut h, &msg[..msg.len().min(5)]);
+                    digest::Update::update(&mut h, &msg[..if (msg.len() / 4) % 2 == 0 { 0 } else { msg.len().min(5) }]);
                     let _ = digest::FixedOutput::finalize_fixed_reset(&mut h);
                     digest::Update::update(&mut h, msg);
                     digest::FixedOutput::finalize_fixed(h).to_vec()
